@@ -15,8 +15,20 @@ impl PeerSink for NullSink {
         Ok(())
     }
 }
+/// A sink whose advisory `is_connected()` says "no" (a transport that is going away, or an embedder that answers
+/// conservatively): flow control and resume handling must not depend on it.
+struct DownSink;
+impl PeerSink for DownSink {
+    fn is_connected(&self) -> bool {
+        false
+    }
+    fn send_notify(&self, _m: &str, _b: NotifyBody) -> Result<(), PeerSendError> {
+        Ok(())
+    }
+}
+/// odd ids get the sink that reports "not connected"
 fn peer(id: u64) -> PeerHandle {
-    PeerHandle::new(PeerId(id), Arc::new(NullSink))
+    if id % 2 == 1 { PeerHandle::new(PeerId(id), Arc::new(DownSink)) } else { PeerHandle::new(PeerId(id), Arc::new(NullSink)) }
 }
 
 #[derive(Clone, Debug, PartialEq, Eq, Hash)]
@@ -111,8 +123,9 @@ impl Model {
     }
 }
 
+/// reason 0 is the EMPTY string (a bare cancel without a text): it is a first reason like any other
 fn reason(r: u8) -> String {
-    format!("reason-{r}")
+    if r == 0 { String::new() } else { format!("reason-{r}") }
 }
 
 /// Apply `op` to the implementation and to the model; returns (impl result, model result).
@@ -367,7 +380,7 @@ fn alphabet(c13: bool) -> Vec<Op> {
             Op::Ack { file: 0, off: 1 },
             Op::Ack { file: 0, off: u64::MAX },
             Op::Ack { file: 1, off: 2 },
-            Op::Cancel { reason: 1 },
+            Op::Cancel { reason: 0 },
             Op::Cancel { reason: 2 },
             Op::Advance { file: 1 },
             Op::Resume { peer: 5, file: 0, off: 1 },
@@ -394,7 +407,7 @@ fn random_op(r: &mut Rng, m_file_hint: u32, c13: bool) -> Op {
         match r.below(12) {
             0..=5 => Op::Push { d: if r.chance(1, 8) { 0 } else { 1 + r.below(9) }, ovh: if r.coin() { 0 } else { r.below(12) }, last: r.chance(1, 10) },
             6..=8 => Op::Resume { peer: 1 + r.below(1000), file, off: if r.coin() { small(r) * 3 } else { r.below(60) } },
-            9 => Op::Advance { file: r.below(3) as u32 },
+            9 => if r.coin() { Op::Advance { file: r.below(3) as u32 } } else if r.coin() { Op::SentAhead { ahead: 1 + r.below(12) } } else { Op::Ack { file, off: if r.coin() { u64::MAX } else { r.below(40) } } },
             10 => if r.chance(1, 6) { Op::Cancel { reason: r.below(3) as u8 } } else { Op::Reconnect },
             _ => Op::Reconnect,
         }
